@@ -1,3 +1,6 @@
 import AvroModel.Bytes
 import AvroModel.Lemmas.Bytes
 import AvroModel.Props.C17
+import AvroModel.Schema
+import AvroModel.Lemmas.Schema
+import AvroModel.Props.C14
